@@ -95,7 +95,8 @@ WithExtras(j) == Dct(j[2] \o << <<S("cv"), I(77)>>, <<S("iv"), I(78)>> >>)
 AllInputs(C) == IF IsAliased(C) THEN AliasInputs(C)
                 ELSE IF HasOpt(DcCfg(C), "extras") THEN Inputs(C) \cup { WithExtras(j) : j \in Inputs(C) } ELSE Inputs(C)
 
-ValidSplit(C) == \A o \in Range(DcCfg(C)) : o[1] = "bases" => Len(o[2][1][3]) < Len(DcFields(C)) \/ HasOpt(DcCfg(C), "redeclared")
+\* (a Split class needs a proper prefix in its base; Chain3's leaf declares nothing itself: its base M3 carries every field)
+ValidSplit(C) == \A o \in Range(DcCfg(C)) : o[1] = "bases" => Len(o[2][1][3]) < Len(DcFields(C)) \/ HasOpt(DcCfg(C), "redeclared") \/ o[2][1][2] = "M3"
 
 Init == T = <<"start">> /\ v = <<"nov">> /\ kind = "start"
 Next == \/ kind = "start" /\ T' \in { C \in Classes : ValidSplit(C) } \cup AliasedClasses /\ v' = v /\ kind' = "type"
